@@ -68,8 +68,13 @@ func (r *ServiceReconciler) reconcileService(ctx context.Context, req ctrl.Reque
 	var service *v1.Service
 
 	if !r.initialLoadPerformed {
-		level.Debug(r.Logger).Log("controller", "ServiceReconciler", "message", "filtered service, still waiting for the initial load to be performed")
-		return ctrl.Result{}, nil
+		// A deletion is let through: an interrupted initial load may already have handed the
+		// service to the handler, and the retried load will not list it any more, so nothing
+		// else would release what is held for it.
+		if svc, err := r.serviceFor(ctx, req.NamespacedName); err != nil || svc != nil {
+			level.Debug(r.Logger).Log("controller", "ServiceReconciler", "message", "filtered service, still waiting for the initial load to be performed")
+			return ctrl.Result{}, nil
+		}
 	}
 
 	service, err := r.serviceFor(ctx, req.NamespacedName)
